@@ -1353,13 +1353,14 @@ PROP = Property(
     ],
     families=[Tables(), Dispatch(), SaveNewest(), Patch(), VDict(), RoundTrip(), RoundTripOther()],
     pre_build=pre_build,
-    partial_note="no_capture_partial: no rename-table key names a live, written, concrete class EXCEPT the four names of known finding F12 (knownCaptured); the full statement is false on the pinned tree (witness no_capture_witness_F12). All other theorems are full.",
+    partial_note="no_capture_partial: no rename-table key names a live, written, concrete class EXCEPT the four names of known finding F12 (knownCaptured); the full statement is false on the pinned tree (witness no_capture_witness_F12). With fix F12b the captured classes still load as themselves whenever their new location cannot be imported (captured_live_class_still_loads); when it can, their records are redirected - that is the capture F12 keeps reporting. All other theorems are full.",
     trusted_base=[
         "harness/translate/c12.py reads the registries, PATH_PATCHES and the class table off the imported package and interns names (interning and the inside-'glue.' flags are re-checked by the compiled driver on every run, the live tables of the harness process are compared with the generated ones)",
         "json, base64, np.save/np.load are trusted codecs",
+        "family patch: importability (`lookup_class(name)` un-patched) is an input read off the environment; the second environment is simulated by stub modules in sys.modules for the external packages (glue_qt, ...) the rename table points to",
         "harness/props/c12_linkfns.py: importable user link functions and a BaseMultiLink sub-class used by the generated collections",
     ],
     assumptions=["old-format records are produced by this tree's own version-v savers (dispatch.get_version(type, v)), as the property prescribes",
                  "generated links give every component at most one producing link (forward or inverse), so that what a dataset reads through the link web does not depend on the discovery order of the link manager"],
-    rule="VersionedDict: every op sequence of length <= 3 (quick) / 4 (thorough) over 2 keys x versions {(-1),0,1,2,3,bad} + queries, each followed by a full probe of the state, plus seeded random histories of length 4-16 over 3 keys; tables/dispatch/patch: every row of the live registries and every name of the rename table; rt: documents written record by record with independently chosen registered versions and loaded by one GlueUnSerializer: (1) 4 fixed collections + 5 link-zoo collections x all 20 (Data version, DataCollection version) pairs, (2) two Data records x every pair of Data versions x every collection version x 3 request orders, two collection records x every pair of collection versions x 3 request orders, (3) generated collections (1-3 datasets, arithmetic / user-function derived components, selections, styles, meta, up to 4 links of the zoo [single-input, inverse, multi-input foreign, multi-input mixed own/foreign, LinkSame, LinkTwoWay, PairLink, MultiLink, LinkAligned, coordinate components as inputs], key join) x version pairs + random per-dataset version assignments with random request orders + two-collection documents; rt1: 18 other registered types x registered versions; non-trivial = at least one set / a multi-version type / a table key / some record of an old (non-newest) version",
+    rule="VersionedDict: every op sequence of length <= 3 (quick) / 4 (thorough) over 2 keys x versions {(-1),0,1,2,3,bad} + queries, each followed by a full probe of the state, plus seeded random histories of length 4-16 over 3 keys; tables/dispatch/patch: every row of the live registries and every name of the rename table (patch: each name through the real lookup_class_with_patches in this machine's environment and in one where the external targets are importable); rt: documents written record by record with independently chosen registered versions and loaded by one GlueUnSerializer: (1) 4 fixed collections + 5 link-zoo collections x all 20 (Data version, DataCollection version) pairs, (2) two Data records x every pair of Data versions x every collection version x 3 request orders, two collection records x every pair of collection versions x 3 request orders, (3) generated collections (1-3 datasets, arithmetic / user-function derived components, selections, styles, meta, up to 4 links of the zoo [single-input, inverse, multi-input foreign, multi-input mixed own/foreign, LinkSame, LinkTwoWay, PairLink, MultiLink, LinkAligned, coordinate components as inputs], key join) x version pairs + random per-dataset version assignments with random request orders + two-collection documents; rt1: 18 other registered types x registered versions; non-trivial = at least one set / a multi-version type / a table key / some record of an old (non-newest) version",
 )
